@@ -594,6 +594,9 @@ def rand_case(ctx: Ctx, i):
     log = {"rows": rows, "phase": rng.choice([None, None, "PREFILL", "DECODING"]), "total_tabs": rng.random() < 0.5}
     R = rng.choice([1, 1, 2, 3])
     evnames = names + [rng.choice(KNAMES)]
+    if rng.random() < 0.3:
+        # a kernel the log does not list at all although a listed kernel's name is its prefix (`mm` listed, `mm_3` runs)
+        evnames.append(rng.choice(names) + "_" + str(rng.randint(2, 9)))
     masked = None
     if rng.random() < 0.35:
         # a family of kernels that the trace names `<base>_[N]_<tail>` with args.fn_idx
